@@ -13,8 +13,8 @@
 
    The specification is read off the raw history: [gw_class revs k = Some c] — the newest event about Gateway k is an
    upsert with class c; [gc_present], [crd_unsupported] likewise ([revs] = all events, newest first). *)
-From Coq Require Import List String NArith ZArith.
-From NGF Require Import C18.Model C18.Proofs.
+From Coq Require Import List String NArith ZArith Permutation.
+From NGF Require Import C18.Model C18.Proofs C18.Check C18.Sound.
 Import ListNotations.
 
 (* Exactly one Deployment per existing Gateway of the configured class, none for any other; ids unique; the
@@ -87,3 +87,17 @@ Theorem C18_D21_refuted :
   class_D21 "nginx" witness_D21 /\ st_crashed s = true /\
   exists d, In d (cl_deps s) /\ gw_class (rev (List.concat witness_D21)) (d_gw d) = None.
 Proof. exact D21_refuted. Qed.
+
+(* Adequacy of the quantifier over [rk]: whatever order l' the Go map yields the Gateways l in, there is a rank
+   function under which the model visits them in exactly that order. *)
+Theorem C18_every_iteration_order_is_covered :
+  forall l l' : list key, NoDup l' -> Permutation l l' -> sort_by (fun k => index_of k l') l = l'.
+Proof. exact every_order_is_a_rank. Qed.
+
+(* The executable oracle that bin/check applies to the implementation's observations accepts everything the model
+   does (repaired D20, outside D21), at every batch boundary: oracle and theorems state the same property. *)
+Theorem C18_oracle_sound :
+  forall v gc sup foreign rk h,
+    v_d20 v = false -> (v_d21 v = false \/ ~ Proofs.class_D21 gc h) ->
+    oracle_from gc sup [] h (map render_snap (trace_from v gc sup rk 0 (init foreign) h)) = [].
+Proof. exact oracle_sound. Qed.
